@@ -223,11 +223,19 @@ fn gen_image(src: &mut Src, prev: Option<&PoolImage>) -> PoolImage {
     let kind = src.draw(6);
     let palette: Vec<RGBA> = (0..1 + src.draw(6)).map(|i| RGBA::new((i * 50 + src.draw(40)) as u8, (200 - i * 30) as u8, src.draw(256) as u8, 255)).collect();
     let transparent = src.chance(1, 4);
+    // partly transparent pixels: alphas next to the ends and the middle of the range, on
+    // colours far from the background so that a wrong coverage shows
+    let semi = src.chance(1, 4);
+    const ALPHAS: [u8; 8] = [1, 254, 128, 3, 4, 127, 200, 2];
+    let alpha_shift = src.draw(8) as usize;
     let seed = src.draw(1 << 16);
     let few = |r: usize, c: usize| -> RGBA {
         let idx = (r * 7 + c * 3 + (r * c) % 5 + seed as usize) % palette.len();
         if transparent && (r + c) % 7 == 0 {
             RGBA::new(9, 9, 9, 0)
+        } else if semi && (r * 3 + c) % 5 == 0 {
+            let [red, green, blue, _] = if idx % 2 == 0 { [255, 255, 255, 255] } else { palette[idx].to_rgba() };
+            RGBA::new(red, green, blue, ALPHAS[(idx + alpha_shift) % 3 + (alpha_shift / 3) * 3 % 6])
         } else {
             palette[idx]
         }
@@ -384,12 +392,27 @@ fn run(ctx: &Ctx, src: &mut Src) -> WorldResult {
         // ---- exactness when the colours fit the palette
         let background = bg.unwrap_or(RGBA::new(0, 0, 0, 255));
         let mut expect: Vec<(u8, u8, u8)> = Vec::with_capacity(want_h * want_w);
+        // partly transparent pixels are judged against "over" in linear light with a tolerance of
+        // one level (the library's transfer functions stay within 0.21 levels of the exact ones:
+        // `simctl survey-blend`)
+        let mut tolerant: Vec<bool> = Vec::with_capacity(want_h * want_w);
         for r in 0..want_h {
             for c in 0..want_w {
                 let px = *item.image.get(Position::new(r, c)).unwrap();
                 let [red, green, blue, alpha] = px.to_rgba();
-                let [red, green, blue] = if alpha == 0 { background.to_rgb() } else { [red, green, blue] };
-                expect.push((scale(red), scale(green), scale(blue)));
+                if alpha == 0 || alpha == 255 {
+                    let [red, green, blue] = if alpha == 0 { background.to_rgb() } else { [red, green, blue] };
+                    expect.push((scale(red), scale(green), scale(blue)));
+                    tolerant.push(false);
+                } else {
+                    src.probe("partly-transparent-pixel-judged");
+                    let [bred, bgreen, bblue] = background.to_rgb();
+                    // the channels are reduced to sixel's resolution first, then composited
+                    let snap = |v: u8| ((v as f32 / 2.55).round() * 2.55) as u8;
+                    let level = |fg: u8, bg: u8| (exact_over(snap(fg), alpha, bg) / 2.55).round() as u8;
+                    expect.push((level(red, bred), level(green, bgreen), level(blue, bblue)));
+                    tolerant.push(true);
+                }
             }
         }
         let distinct: std::collections::BTreeSet<(u8, u8, u8)> = expect.iter().copied().collect();
@@ -397,6 +420,10 @@ fn run(ctx: &Ctx, src: &mut Src) -> WorldResult {
             src.probe("colours-fit-palette");
             for (at, (want, got)) in expect.iter().zip(decoded.pixels.iter()).enumerate() {
                 let got = decoded.registers[&got.unwrap()];
+                let near = |a: u8, b: u8| a.abs_diff(b) <= 1;
+                if tolerant[at] && near(got.0, want.0) && near(got.1, want.1) && near(got.2, want.2) {
+                    continue;
+                }
                 if got != *want {
                     return Err(Violation::new(
                         P,
@@ -419,4 +446,52 @@ fn run(ctx: &Ctx, src: &mut Src) -> WorldResult {
         }
     }
     Ok(())
+}
+
+
+// ---------------------------------------------------------------- compositing reference
+
+fn srgb_to_linear(v: f64) -> f64 {
+    if v <= 0.04045 {
+        v / 12.92
+    } else {
+        ((v + 0.055) / 1.055).powf(2.4)
+    }
+}
+
+fn linear_to_srgb(v: f64) -> f64 {
+    if v <= 0.0031308 {
+        v * 12.92
+    } else {
+        1.055 * v.powf(1.0 / 2.4) - 0.055
+    }
+}
+
+/// "over" in linear light (IEC 61966-2-1 transfer functions), result as an 8-bit channel value
+pub(crate) fn exact_over(fg: u8, alpha: u8, bg: u8) -> f64 {
+    let a = alpha as f64 / 255.0;
+    let lin = a * srgb_to_linear(fg as f64 / 255.0) + (1.0 - a) * srgb_to_linear(bg as f64 / 255.0);
+    linear_to_srgb(lin) * 255.0
+}
+
+/// survey: largest distance (in 0-100 levels) between the library's compositing and the
+/// reference over all alphas and a grid of channel values (`simctl survey-blend`)
+pub fn survey_blend() {
+    let mut worst = (0.0f64, 0u8, 0u8, 0u8);
+    let mut hist = [0u64; 8];
+    for alpha in 0..=255u8 {
+        for fg in (0..=255u16).step_by(3) {
+            for bg in (0..=255u16).step_by(5) {
+                let (fg, bg) = (fg as u8, bg as u8);
+                let lib = RGBA::new(bg, bg, bg, 255).blend_over(RGBA::new(fg, fg, fg, alpha)).to_rgba()[0];
+                let want = exact_over(fg, alpha, bg);
+                let d = ((lib as f64) / 2.55 - want / 2.55).abs();
+                hist[(d.floor() as usize).min(7)] += 1;
+                if d > worst.0 {
+                    worst = (d, alpha, fg, bg);
+                }
+            }
+        }
+    }
+    println!("worst distance {:.3} levels at alpha={} fg={} bg={}; histogram by whole levels {:?}", worst.0, worst.1, worst.2, worst.3, hist);
 }
